@@ -109,6 +109,19 @@ class ILI(_DatabaseEntity):
         self.status = status
         self._definition = definition
 
+    def __eq__(self, other):
+        if not isinstance(other, ILI):
+            return NotImplemented
+        # existing and proposed ILIs are rows of different tables, so
+        # the same _id does not mean the same ILI
+        return self._key() == other._key()
+
+    def __hash__(self):
+        return hash(self._key())
+
+    def _key(self) -> tuple[bool, int]:
+        return (self.status == 'proposed', self._id)
+
     def __repr__(self) -> str:
         return f'ILI({repr(self.id) if self.id else "*PROPOSED*"})'
 
